@@ -126,6 +126,10 @@ def ew(fn, *args):
         if a.shape != ():
             shp = a.shape
             break
+    if any(a.shape != () and a.shape != shp for a in args):
+        # lax elementwise ops accept equal-rank operands with size-1 dimensions (seen after vmap): numpy broadcasting
+        shp = onp.broadcast_shapes(*[a.shape for a in args if a.shape != ()])
+        args = [onp.broadcast_to(a, shp) if a.shape != () else a for a in args]
     out = onp.empty(shp, dtype=object)
     if shp == ():
         out[()] = fn(*[a[()] for a in args])
